@@ -122,6 +122,7 @@ func c06Bounds(e *core.Env) core.Bounds {
 }
 
 func c06Run(e *core.Env) {
+	runLitmus(e)
 	drv := e.Driver()
 	ins := c06Inputs()
 	sort.Slice(ins, func(i, j int) bool { return ins[i].Name < ins[j].Name })
